@@ -59,25 +59,22 @@ static zidx_t							\
 find_before_##N(						\
 	const X v[], size_t nv, X key, zidx_t i, zidx_t min, zidx_t max) \
 {								\
-/* Given key K find the index of the transition before */	\
-	do {							\
-		X lo, up;					\
+/* Given key K find the index of the transition before, i.e.	\
+ * the largest index I in [MIN, MAX] with V[I] < K, else MIN */	\
+	(void)i;						\
+	if (UNLIKELY(nv == 0U || max >= nv)) {			\
+		max = nv ? nv - 1U : 0U;			\
+	}							\
+	while (min < max) {					\
+		const zidx_t mid = min + (max - min + 1U) / 2U;	\
 								\
-		lo = v[i];					\
-		up = v[i + 1];					\
-								\
-		if (key > lo && key <= up) {			\
-			/* found him */				\
-			break;					\
-		} else if (key > up) {				\
-			min = i + 1;				\
-			i = (i + max) / 2;			\
-		} else if (key <= lo) {				\
-			max = i - 1;				\
-			i = (i + min) / 2;			\
+		if (v[mid] < key) {				\
+			min = mid;				\
+		} else {					\
+			max = mid - 1U;				\
 		}						\
-	} while (max > min && i < nv);				\
-	return i;						\
+	}							\
+	return min;						\
 }								\
 static const int UNUSED(defined_find_before_##name##_p)
 
